@@ -32,6 +32,9 @@ BOUNDS = {"quick": {"unmerged_depth": 3}, "thorough": {"unmerged_depth": 4}}
 CONFIGS = {
     "default": {},
     "deprecated36": {"extra": [(36, 1, b"\x00\x03"), (35, 1, b"\x00\x02")]},
+    # the same setting index twice, followed by further settings (the name view collapses the pair, the record list
+    # does not), and a second jitter record after everything else
+    "duplicates": {"extra": [(29, 3, b"%windir%\\syswow64\\a.exe\x00"), (29, 3, b"%windir%\\syswow64\\b.exe\x00"), (30, 3, b"%windir%\\sysnative\\c.exe\x00"), (43, 1, b"\x00\x40"), (5, 1, b"\x00\x21")]},
     "encoders": {
         "get": [("_HEADER", b"Accept: */*"), ("_PARAMETER", b"k=v"), ("BUILD", 0), ("MASK", None), ("NETBIOS", None), ("PREPEND", b"SESSION="), ("HEADER", b"Cookie")],
         "post": [("BUILD", 0), ("BASE64URL", None), ("PARAMETER", b"id"), ("BUILD", 1), ("MASK", None), ("BASE64", None), ("APPEND", b"--"), ("PRINT", None)],
